@@ -197,7 +197,7 @@ def classify(ctx, key, msg, case):
 
 def run(ctx):
     quick = ctx.tier == "quick"
-    ctx.bounds = {"lift": "all 24 alphabet gates (arity 1..3 on widths <= 3%s), every ordered tuple" % (", arity 4 on width 4" if quick else "; thorough: all on width 4"), "programs": "MaxQ=3, MaxLen=%d (+1 by concatenation)" % (1 if quick else 2), "native sets": 6}
+    ctx.bounds = {"lift": "all 25 alphabet gates (arity 1..3 on widths <= 3%s), every ordered tuple" % (", arity 4 on width 4" if quick else "; thorough: all on width 4"), "programs": "MaxQ=3, MaxLen=%d (+1 by concatenation)" % (1 if quick else 2), "native sets": 6}
     runs = [("lift3", dict(MaxQ=3, MaxLen=1, Alphabet="<-AlphabetAll", Mode='"lift"', Emitting=True)),
             ("lift4", dict(MaxQ=4, MaxLen=1, Alphabet="{11, 24}" if quick else "<-AlphabetAll", Mode='"lift"', Emitting=True)),
             ("programs", dict(MaxQ=3, MaxLen=1 if quick else 2, Alphabet="<-AlphabetQuick", Mode='"programs"', Emitting=True))]
